@@ -48,3 +48,35 @@ func verifHarness_C19_guard_racy() {
 	verifThread("a", body)
 	verifThread("b", body)
 }
+
+// Release by the reader while the poller delivers more than a page of input (inputAck then
+// grows maxSize under the slot token; Release reads and writes it under the same token).
+//
+//verif:po
+//verif:bounds reader: Release twice on a connection without unread input; poller: 2 deliveries of 8193..8196 bytes
+//verif:loop 40
+//verif:poloop 3
+//verif:potimeout 300
+func verifHarness_C19_release() {
+	c := verifNewConn(verifConnCfg{closeCBs: 1})
+	op := c.operator
+	vs := make([][]byte, 1)
+	verifThread("reader", func() {
+		c.Release()
+		c.Release()
+		verifReach("released")
+	})
+	verifThread("poller", func() {
+		for i := 0; i < 2; i++ {
+			if op.do() {
+				n := verifNondetInt("chunk")
+				verifAssume(n >= 8193)
+				verifAssume(n <= 8196)
+				op.Inputs(vs)
+				op.InputAck(n)
+				op.done()
+			}
+		}
+		verifReach("delivered")
+	})
+}
